@@ -13,12 +13,19 @@ namespace Py
 def normIdx (n : Nat) (i : Int) : Nat :=
   if i < 0 then (Int.toNat (n + i)) else min i.toNat n
 
+/-- effective lower bound of `x[a:b]` on a sequence of length `n` -/
+def loIdx (n : Nat) : Option Int → Nat
+  | none => 0
+  | some i => normIdx n i
+
+/-- effective upper bound of `x[a:b]` on a sequence of length `n` -/
+def hiIdx (n : Nat) : Option Int → Nat
+  | none => n
+  | some i => normIdx n i
+
 /-- `x[a:b]` for any list -/
 def sliceL {α : Type} (x : List α) (a b : Option Int) : List α :=
-  let n := x.length
-  let lo := match a with | none => 0 | some i => normIdx n i
-  let hi := match b with | none => n | some i => normIdx n i
-  (x.drop lo).take (hi - lo)
+  (x.drop (loIdx x.length a)).take (hiIdx x.length b - loIdx x.length a)
 
 /-- `s[a:b]` -/
 def slice (x : Str) (a b : Option Int) : Str := sliceL x a b
